@@ -75,6 +75,12 @@ CHECKS = {
         "note": "Trusts vlib/world.py, vlib/redirects.py. Over-stripping on same-origin hops is allowed (only leaks are violations).",
         "design_ref": "DESIGN.md section 4, C06",
     },
+    "C07": {
+        "technique": "lattice enumeration with real TLS handshakes (trustme certificates over socket.socketpair() against an in-process server thread, stdlib ssl and pyOpenSSL backends, direct and CONNECT tunnel): quick = every 3-axis interaction that involves a security axis (about 5 900 cells) + Hypothesis-sampled cells, thorough = the full pruned lattice (about 635 000 cells); oracle: reference decision table of the checks the settings demand (chain / pin / hostname via C08's independent matcher), compared with whether the server received any application byte, the error raised, socket closure, is_verified and InsecureRequestWarning",
+        "text": "Each cell configures HTTPSConnectionPool or ProxyManager with one combination of cert_reqs, CA source, assert_hostname, assert_fingerprint, server_hostname and caller-supplied context, connects to a server whose certificate has a chosen issuer and name shape under a chosen spelling of the host, and asserts: no application byte reaches the server unless every demanded check passes; a failed check surfaces as SSLError with the client socket closed; when everything passes the request succeeds; is_verified and InsecureRequestWarning follow (cert_reqs REQUIRED or pinned fingerprint).",
+        "note": "Trusts OpenSSL (through ssl and pyOpenSSL), trustme, vlib/refname.py. https-proxy (TLS-in-TLS) tunnels are exercised on the null-TLS layer in C09, not with real TLS here. Liveness is not asserted for ca_cert_data alone under pyOpenSSL (the installed pyOpenSSL rejects the context's first load call; fails closed).",
+        "design_ref": "DESIGN.md section 4, C07",
+    },
     "C08": {
         "technique": "bounded-exhaustive (SAN name, host) pair enumeration + Hypothesis SAN lists / IP spellings / pin mutations; oracle: independent three-valued RFC 6125 reference (strict subset, liberal superset) and hashlib digest comparison",
         "text": "All pairs of names with <= 2 labels (quick) / <= 3 labels (thorough, 2.1e6 pairs x case variants) over the 11-label alphabet, generated SAN lists with IP and commonName variants, and tens of thousands of pins derived from true digests are decided against a reference that is independent of urllib3's matcher; both directions (must-accept, must-reject) are asserted.",
